@@ -32,7 +32,11 @@ TInit == /\ tid \in 1..N /\ l = 1 /\ lay = Traces[tid].lay
          /\ TLCSet(tid, 1) /\ TLCSet(N + tid, "none") /\ TLCSet(2 * N + tid, 0)
 \* data consistency of the layout itself (declared group widths against the register file)
 TLayout == /\ Is("Layout") /\ UNCHANGED <<lay, bits, cfg, bin, nrm, gen, act>>
-           /\ Check("GroupsConsistent", GroupsConsistent(L)) /\ Adv
+           /\ (LET bad == {g \in Groups(L) : ~(Reg(L, g).nmiss = 0 /\ (Reg(L, g).declw = 0 \/ Reg(L, g).declw = Reg(L, g).subsw))}
+               IN IF GroupsConsistent(L) THEN TRUE ELSE Fail("GroupsConsistent", CHOOSE g \in bad : \A x \in bad : g <= x))
+           /\ (IF NoOverlap(L) THEN TRUE ELSE Fail("NoOverlap", L.ovl[1]))
+           /\ Check("Resolvable", Resolvable(L))
+           /\ (IF EnumNamesUnique(L) THEN TRUE ELSE Fail("EnumNamesUnique", L.dupenum[1])) /\ Adv
 TNewObject == /\ Is("NewObject")
               /\ IF l = 1 THEN UNCHANGED <<lay, bits, cfg, bin, nrm, gen, act>> ELSE NewObject
               /\ Check("Constructs", E.ok) /\ Check("Structure", E.struct)
